@@ -298,6 +298,28 @@ def _crun(stmts, env, eff, tokvar):
 
 
 # ----------------------------------------------------------------------------- EX1
+def _assign_paths(stmts, conds=(), env=None):
+    """paths through straight-line code with if/else: yields (conditions, {name: last value})"""
+    env = dict(env or {})
+    for k, st in enumerate(stmts):
+        if isinstance(st, ast.Assign) and len(st.targets) == 1 and isinstance(st.targets[0], ast.Name):
+            env[st.targets[0].id] = st.value
+        elif isinstance(st, ast.Assign) and len(st.targets) > 1 and all(isinstance(t, ast.Name) for t in st.targets):
+            for t in st.targets:
+                env[t.id] = st.value
+        elif isinstance(st, ast.If):
+            facts_t, facts_f = [], []
+            guards.split_fact(st.test, True, facts_t)
+            guards.split_fact(st.test, False, facts_f)
+            rest = stmts[k + 1:]
+            for c2, e2 in _assign_paths(st.body, tuple(conds) + tuple(facts_t), env):
+                yield from _assign_paths(rest, c2, e2)
+            for c2, e2 in _assign_paths(st.orelse, tuple(conds) + tuple(facts_f), env):
+                yield from _assign_paths(rest, c2, e2)
+            return
+    yield tuple(conds), env
+
+
 def ex1(model):
     r = RuleResult('EX1', 'extraction: init_extractions rewrites every macro unconditionally '
                    '(extract template and empty replacement), a listed macro extracts its first '
@@ -326,29 +348,57 @@ def ex1(model):
                    witness='--extr with a document that contains a \\footnote')
     if 'repl' in stores and not (isinstance(stores['repl'].value, ast.List) and not stores['repl'].value.elts):
         r.fail(stores['repl'], 'the replacement of a macro is not emptied')
-    # the template: '' unless listed; '#' + str(pos + 1)
-    tmpl = [n for n in ast.walk(main) if isinstance(n, ast.BinOp) and isinstance(n.op, ast.Add)
-            and T.is_const(n.left, '#')]
-    okt = False
-    for n in tmpl:
-        c = n.right
-        if isinstance(c, ast.Call) and getattr(c.func, 'id', '') == 'str' and isinstance(c.args[0], ast.BinOp) \
-                and isinstance(c.args[0].op, ast.Add) and T.is_const(c.args[0].right, 1):
-            idx = c.args[0].left
-            vals = T.resolve_local(model, idx) if isinstance(idx, ast.Name) else [idx]
-            if all(isinstance(v, ast.Call) and T.call_name(v) == 'next' for v in vals):
-                okt = True
-                r.ok(n, "template '#' + str(k + 1) for the first A at index k", nontrivial=True)
-    if not okt:
-        r.fail(main, "a listed macro does not extract '#k+1' for its first mandatory argument",
-               stmt='extraction template')
-    empties = [n for n in ast.walk(main) if isinstance(n, ast.Assign) and T.is_const(n.value, '')]
-    unl = [n for n in empties if any(not t and isinstance(e, ast.Compare) and isinstance(e.ops[0], ast.In)
-                                     for e, t in guards.facts(n))]
-    if unl:
-        r.ok(unl[0], 'an unlisted macro extracts nothing', nontrivial=True)
+    # the template: '' unless listed; '#' + str(pos + 1) -- decided on the paths through the loop
+    # body: value of the variable that is scanned into mac.extract, with its path condition
+    tvar = None
+    if 'extract' in stores:
+        for x in ast.walk(stores['extract'].value):
+            if isinstance(x, ast.Name) and isinstance(x.ctx, ast.Load) and x.id not in ('self',):
+                tvar = x.id
+    if tvar is None:
+        r.undec(main, 'template variable of init_extractions not recognised')
     else:
-        r.fail(main, "no empty template for macros that are not listed", stmt='unlisted template')
+        upto = main.body[:main.body.index(stores['extract'])] if stores['extract'] in main.body else main.body
+        okt = unl = False
+        for conds, env in _assign_paths(upto):
+            val = env.get(tvar)
+            listed = None
+            for e, t in conds:
+                if isinstance(e, ast.Compare) and isinstance(e.ops[0], (ast.In, ast.NotIn)) and len(e.ops) == 1:
+                    listed = (isinstance(e.ops[0], ast.In) == t)
+            is_empty = val is not None and T.is_const(val, '')
+            is_tmpl = False
+            if isinstance(val, ast.BinOp) and isinstance(val.op, ast.Add) and T.is_const(val.left, '#'):
+                c = val.right
+                if isinstance(c, ast.Call) and getattr(c.func, 'id', '') == 'str' and isinstance(c.args[0], ast.BinOp) \
+                        and isinstance(c.args[0].op, ast.Add) and T.is_const(c.args[0].right, 1):
+                    idx = c.args[0].left
+                    vals = [env.get(idx.id)] if isinstance(idx, ast.Name) and env.get(idx.id) is not None else \
+                        (T.resolve_local(model, idx) if isinstance(idx, ast.Name) else [idx])
+                    if vals and all(isinstance(v, ast.Call) and T.call_name(v) == 'next' for v in vals):
+                        is_tmpl = True
+            if val is None:
+                r.fail(stores['extract'], 'the template variable %s is not set on a path through '
+                       'init_extractions' % tvar)
+            elif listed is False and not is_empty:
+                r.fail(stores['extract'], 'a macro that is not listed gets the extraction template %s'
+                       % unparse(val)[:40], witness='--extr \\footnote with a document that uses \\caption')
+            elif not (is_empty or is_tmpl):
+                r.fail(stores['extract'], "a listed macro does not extract '#k+1' for its first mandatory "
+                       "argument but %s" % unparse(val)[:40], stmt='extraction template')
+            elif listed is False and is_empty:
+                unl = True
+            elif listed and is_tmpl:
+                okt = True
+        if okt:
+            r.ok(stores['extract'], "template '#' + str(k + 1) for the first A at index k", nontrivial=True)
+        elif not r.findings:
+            r.fail(main, "a listed macro does not extract '#k+1' for its first mandatory argument",
+                   stmt='extraction template')
+        if unl:
+            r.ok(stores['extract'], 'an unlisted macro extracts nothing', nontrivial=True)
+        elif not r.findings:
+            r.fail(main, "no empty template for macros that are not listed", stmt='unlisted template')
     # parse(): main text dropped
     p = model.func('parser.Parser.parse')
     epar = p.params[3] if len(p.params) > 3 else 'extract'
@@ -369,7 +419,19 @@ def ex1(model):
     loop2 = [s for s in p.node.body if isinstance(s, ast.For) and 'extracted' in unparse(s.iter)]
     if loop2 and isinstance(loop2[0].target, ast.Name):
         v = loop2[0].target.id
-        adds = [n for n in ast.walk(loop2[0]) if isinstance(n, ast.AugAssign) and unparse(n.value) == v]
+        adds = []
+        for n in ast.walk(loop2[0]):
+            val = None
+            if isinstance(n, ast.AugAssign) and isinstance(n.op, ast.Add):
+                val = n.value
+            elif isinstance(n, ast.Call) and T.call_name(n) == 'extend' and n.args:
+                val = n.args[0]
+            if val is None:
+                continue
+            for x in ast.walk(val):
+                if isinstance(x, ast.Name) and x.id == v and not isinstance(
+                        getattr(x, '_parent', None), (ast.Subscript, ast.Attribute, ast.Call)):
+                    adds.append(n)
         if len(adds) == 1 and not isinstance(loop2[0].iter, ast.Call):
             r.ok(adds[0], 'each extracted flow is appended exactly once, in list order', nontrivial=True)
         else:
